@@ -183,7 +183,7 @@ def build():
          ensures=[("the command is returned unchanged", "result[0] == path_of(bcp_string)"),
                   ("exactly the parameter that was sent", "n_params(result) == 1 and result_key(result) == g_key"),
                   ("with the same value and the same type", "same(result_value(result, g_key), g_val)")],
-         raises={}, modifies=[],
+         raises={}, modifies=[], fresh_result=True,
          replay_seeds={})
 
     # ---- encode (one keyword parameter)
@@ -264,8 +264,30 @@ def build():
         return VBool(payload)
     C.helpers["framing_ok"] = framing_ok
     C.trace_helpers = {"framing_ok"}
-    # read_message itself is NOT claimed: its framing obligation (nested substr/indexof facts) stayed undecided
-    # in both z3 and cvc5 within budget; see DESIGN.md (C19, "not decided").
+    def read_some(I, env, args, kwargs):
+        """StreamReader.read(n): whatever has arrived, at most n bytes, at least one unless the stream ended"""
+        r = env["self"].ref
+        st = I.force(I.read_field(r, "stream")).t
+        kk, n = I.num(args[0])
+        ln = z3.Int(I.fresh_name("chunk_len"))
+        if I.ctx.branch(z3.Length(st) == 0):
+            return VStr(z3.StringVal(""), True)
+        I.ctx.assume(z3.And(ln >= 1, ln <= n, ln <= z3.Length(st)))
+        I.write_field(r, "stream", VStr(z3.SubString(st, ln, z3.Length(st) - ln), True))
+        return VStr(z3.SubString(st, 0, ln), True)
+    C.ext("StreamReader.read", model=read_some, trusted_reason=A)
+    RM = dict(
+        requires=[("a complete line is available", "'\\n' in self._receiver.stream")],
+        ensures=[("one command per line; an attached payload is exactly the announced bytes after the line; the "
+                  "stream continues right behind it (so messages are dispatched in the order sent)", "framing_ok()")],
+        raises={"ValueError": True, "IncompleteReadError": True, "BrokenPipeError": True},
+        modifies=["self._receiver.stream"])
+    C.fn("AsyncioBcpClientSocket.read_message", **RM)
+    C.cls("BaseBcpClient", fields={})
+    C.cls("BCPClientSocket", file=BCP, bases=["BaseBcpClient"], fields=dict(_receiver=ObjS("StreamReader"), _debug=Bool))
+    C.ext("BCPClientSocket._process_command", model=process_command,
+          trusted_reason="decode_command_string(message.decode()) + rawbytes, then dispatch")
+    C.fn("BCPClientSocket.read_message", **RM)
     # ---- the round-trip lemma (pure): encode's postcondition + library axioms => decode's precondition
     def lemma(C_):
         rows = []
